@@ -10,9 +10,11 @@ import (
 	"path/filepath"
 	"sort"
 	"strings"
+	"time"
 
 	"verif/prep"
 	"verifsim/bsim"
+	"verifsim/choice"
 )
 
 // Confirmation on the uninstrumented binary (DESIGN.md 3.5): a divergence between twin runs that
@@ -71,6 +73,15 @@ func runReal(bin string, w *bsim.World, root string) (realResult, error) {
 		if err := os.WriteFile(in(f.Path), []byte(f.Content), 0644); err != nil {
 			return rr, err
 		}
+	}
+	for fi, f := range w.Files {
+		// same metadata rule as the simulated world (bsim.Exec)
+		at := time.Now().Add(-2 * time.Hour)
+		if w.MetaSeed != 0 {
+			at = time.Now().Add(-240*time.Hour + time.Duration(choice.Mix(w.MetaSeed, uint64(2000+fi))%(264*3600))*time.Second)
+			_ = os.Chmod(in(f.Path), []os.FileMode{0600, 0644, 0664, 0444, 0755, 0640}[choice.Mix(w.MetaSeed, uint64(1000+fi))%6])
+		}
+		_ = os.Chtimes(in(f.Path), at, at)
 	}
 	if w.CwdGo {
 		_ = os.WriteFile(in("zz_unrelated.go"), []byte("package unrelated\n\nimport \"strings\"\n\nvar Cfg = struct{ Field string }{strings.ToUpper(\"x\")}\n"), 0644)
@@ -149,7 +160,7 @@ func confirmReal(s *prep.Scratch, v *bsim.Violation) (string, string) {
 		dim = sig[:i]
 	}
 	switch dim {
-	case "env", "cwd", "keyorder", "run-from", "previous-output", "map":
+	case "env", "cwd", "keyorder", "run-from", "previous-output", "map", "file-metadata":
 	default:
 		return "n/a", ""
 	}
